@@ -205,7 +205,11 @@ class MonitoredList(MonitoredContainer, list):
         super().append(item)
 
     def __setitem__(self, idx, value):
-        value = self._on_add(value)
+        if isinstance(idx, slice):
+            # record every element on its own (like append does) and keep what a one-shot iterable yields
+            value = [self._on_add(item) for item in value]
+        else:
+            value = self._on_add(value)
         super().__setitem__(idx, value)
 
     def insert(self, idx, item):
